@@ -2,7 +2,7 @@
    ONLY statements: each theorem is closed by `exact` of a lemma proved elsewhere and followed by Print Assumptions. *)
 From Coq Require Import ZArith NArith List Bool Lia Permutation FMapPositive.
 Import ListNotations.
-Require Import Base Builtins SeqProofs Strings SliceReal Float Interp Machine Spec Refine2 RunG SeqLink SeqSpec.
+Require Import Base Builtins SeqProofs Strings SliceReal SliceContig Float Interp Machine Spec Refine2 RunG SeqLink SeqSpec.
 
 Theorem join_split sep s :
   sep <> [] -> joinN sep (split_on (S (length s)) sep s []) = s.
@@ -47,6 +47,33 @@ Theorem slice_list_is_positions {A} (d:A) (l:list A) start stop step :
   /\ Forall (fun i => 0 <= i < Z.of_nat (length l)) (slice_indices (Z.of_nat (length l)) start stop step).
 Proof. exact (SliceReal.slice_list_is_positions d l start stop step). Qed.
 Print Assumptions slice_list_is_positions.
+
+(* STEP 1: for 0 <= a <= b <= length the slice is the contiguous segment - positions a .. b-1 in order (firstn (b - a) (skipn a l)) *)
+Theorem contiguous_slice {A} (l:list A) (a b : Z) :
+  0 <= a <= b -> b <= Z.of_nat (length l) ->
+  slice_list l a b 1 = firstn (Z.to_nat (b - a)) (skipn (Z.to_nat a) l).
+Proof. exact (SliceContig.contiguous_slice l a b). Qed.
+Print Assumptions contiguous_slice.
+
+(* the slice from 0 to the length is the sequence itself *)
+Theorem full_slice_is_identity {A} (l:list A) :
+  slice_list l 0 (Z.of_nat (length l)) 1 = l.
+Proof. exact (SliceContig.full_slice_is_identity l). Qed.
+Print Assumptions full_slice_is_identity.
+
+(* adjacent slices tile: [a, b) followed by [b, c) is [a, c) - nothing lost, nothing twice *)
+Theorem slices_tile {A} (l:list A) (a b c : Z) :
+  0 <= a <= b -> b <= c -> c <= Z.of_nat (length l) ->
+  slice_list l a b 1 ++ slice_list l b c 1 = slice_list l a c 1.
+Proof. exact (SliceContig.slices_tile l a b c). Qed.
+Print Assumptions slices_tile.
+
+(* and [a, b) has exactly b - a elements *)
+Theorem contiguous_slice_length {A} (l:list A) (a b : Z) :
+  0 <= a <= b -> b <= Z.of_nat (length l) ->
+  Z.of_nat (length (slice_list l a b 1)) = b - a.
+Proof. exact (SliceContig.contiguous_slice_length l a b). Qed.
+Print Assumptions contiguous_slice_length.
 
 (* the built-ins on evaluated arguments ARE these list functions, for lists, strings (code points) and byte strings *)
 Theorem len_of_list (rec : list positive -> heap -> world -> task -> out) sp l ip h w :
